@@ -18,4 +18,4 @@ NATIVE_COVERS = {"NestedContainer.__dask_tokenize__": ["GraphNode.__eq__", "Task
 
 def native(tier, seed):
     from vf import spec_native
-    return [spec_native.congruence_sweep(tier, seed), spec_native.token_history_sweep(tier, seed)]
+    return [spec_native.congruence_sweep(tier, seed), spec_native.token_history_sweep(tier, seed), spec_native.fresh_process_sweep(tier, seed)]
